@@ -322,7 +322,7 @@ def run(ctx):
         per_module[path] = sum(len(r["lines"]) for r in per_chain.values())
         # ---------------- R20e keyword names (thorough)
         if ctx.tier == "thorough":
-            r20e(ctx, mname, tree, local)
+            ctx.guard(r20e, mname, tree, local)
     ctx.analysed["chains_per_module"] = per_module
     ctx.analysed["deprecated_but_present"] = {k: sorted(v) for k, v in dep_seen.items()}
     if n_chains < 500:
